@@ -220,6 +220,7 @@ func containsSym(x value) bool {
 type oent struct {
 	key, val value
 	live     bool
+	sym      bool // key contains symbolic parts (not in idx)
 }
 
 type omap struct {
@@ -227,6 +228,7 @@ type omap struct {
 	idx     map[interface{}]int
 	ents    []oent
 	n       int
+	nsym    int // live entries with symbolic keys
 }
 
 func makeMap(kt types.Type) *omap {
@@ -298,7 +300,7 @@ func (m *omap) insert(k, v value) {
 		return
 	}
 	m.idx[nk] = len(m.ents)
-	m.ents = append(m.ents, oent{k, v, true})
+	m.ents = append(m.ents, oent{key: k, val: v, live: true})
 	m.n++
 }
 
